@@ -199,7 +199,7 @@ def gen_cam(rng):
     # USER's model (a negative conv_layer index counts from the end of the full model)
     # small real-valued targets (confident heads, small gradients): the channel weights of Grad-CAM++ must not collapse
     if rng.random() < 0.3:
-        k = rng.choice([10, 12, 14, 16])
+        k = rng.choice([10, 12, 14, 16, 18, 20, 22, 24])      # down to gradients of 1e-7: g^2 and g^3 are still normal float32 numbers
         case["tscale"] = k
         case["ts"] = [[v * 2.0 ** -k for v in t] for t in case["ts"]]
     if total - 2 > max(cands) and len(shp[total - 2]) == 1 and rng.random() < 0.45:
@@ -210,9 +210,16 @@ def gen_cam(rng):
     return case
 
 
+def _with_frozen(rng, cases):
+    for c in cases:
+        if isinstance(c, dict) and "layers" in c:
+            c["frozen"] = rng.choice([None, None, None, "first", "first", "all"])
+    return cases
+
+
 def generate(rng, tier):
     nb, ns, nc = (70, 5, 60) if tier == "quick" else (700, 60, 600)
-    return [gen_bp(rng) for _ in range(nb)] + [gen_bp(rng, True) for _ in range(ns)] + [gen_cam(rng) for _ in range(nc)]
+    return _with_frozen(rng, [gen_bp(rng) for _ in range(nb)] + [gen_bp(rng, True) for _ in range(ns)] + [gen_cam(rng) for _ in range(nc)])
 
 
 def explained(case):
@@ -302,6 +309,15 @@ def build_keras(case):
             lay.set_weights([np.array(s["W"], np.float32).T, np.array(s["b"], np.float32)])
         elif s["k"] == "conv":
             lay.set_weights([np.array(s["kernel"], np.float32), np.array(s["b"], np.float32)])
+    # transfer-learning set-up: frozen layers (their weights are non-trainable variables); the function is the same
+    frozen = case.get("frozen")
+    if frozen == "all":
+        model.trainable = False
+    elif frozen == "first":
+        for lay, s in zip(layers, case["layers"]):
+            if s["k"] in ("dense", "conv"):
+                lay.trainable = False
+                break
     return model
 
 
